@@ -36,7 +36,14 @@ class _GramMixin:
     def replay_custom(self, I, mk):
         """elementwise disagreement with the Gram form is not what C17 states: the replay evaluates the
         inequalities themselves on the real output at the witness input"""
-        out = self.code(I, mk)
+        try:
+            out = self.code(I, mk)
+        except (ValueError, TypeError, IndexError) as e:
+            from sx.harness import _raised_in_library
+
+            if _raised_in_library(e):
+                return "reproduced", f"the library raised {type(e).__name__} on a valid basis: {e}"
+            raise
         key = [k for k in out if k not in ("diag",)][0]
         A = np.asarray(out[key], dtype=float)
         if A.ndim == 3:
@@ -205,6 +212,7 @@ def cases(tier, seed=0):
     out.append(GramPointCharge(ls=[0, 1], types="cc", Ks=[2, 1], Ms=[1, 2], nq=1))
     out.append(GramPointCharge(ls=[2, 1], types="sc", Ks=[1, 1], Ms=[1, 1], nq=1))
     out.append(GramEri(ls=[0, 0], Ks=[2, 1], Ms=[1, 2]))
+    out.append(GramEri(ls=[0, 0], Ks=[2, 1], Ms=[2, 2], exps=[["3/2", "3/10"], ["7/10"]], heavy=True))
     if tier == "thorough":
         out.append(GramOverlap(ls=[0, 1, 2], types="csc", Ks=[1, 1, 1], Ms=[1, 1, 1]))
         out.append(GramOverlap(ls=[3, 1], types="sc", Ks=[1, 1], Ms=[1, 1]))
